@@ -162,34 +162,63 @@ def check(ctx):
     nrand = 2000 if ctx.tier == "quick" else 30000
     trace = ctx.path("trace.ndjson")
     out = ctx.path("fuzz.json")
-    run_driver(ctx, [drv, "-mode", "fuzz", "-n", str(nrand), "-trace", trace, "-work", ctx.mkdir("work-fuzz"), "-out", out], timeout=1200)
-    absorb(out, "fuzz")
-    res = tlc(ctx, SPECDIR, "Trace_IndexEntry.tla", "Trace_IndexEntry.cfg", files=[trace], workers=NCPU, timeout=2400,
-              expect_violation=True)
-    ctx.tlc_states += res.distinct
-    ctx.tlc_transitions += max(res.generated - 1, 0)
-    if not res.ok:
-        raise NoVerdict("trace validation did not complete:\n%s" % res.violation)
-    if res.distinct != nrand:
-        raise NoVerdict("trace validation visited %d of %d records" % (res.distinct, nrand))
-    bad = bad_traces(res)
-    trace_drift = 0
-    if bad:
-        recs = open(trace).read().splitlines()
-        for idx, invs in sorted(bad.items()):
-            rec = json.loads(recs[idx - 1])
-            text = bytes(rec["e"]).decode("latin-1")
-            if "RecNoPanic" in invs:
-                violations.append(dict(kind="panic", **{"class": "i%d %r" % (rec["id"], text)},
-                                       what="Get panicked on the index file %r (rejected by TLC: RecNoPanic)" % text,
-                                       input=dict(index_file=text, bytes=rec["e"], id="i%d" % rec["id"])))
-            else:
-                trace_drift += 1
-                drift.append(dict(kind="trace-" + ",".join(sorted(invs)), what="the real Get and the grammar of IndexEntry.tla differ on %r" % text,
-                                  input=dict(index_file=text, id="i%d" % rec["id"], real_accepts=rec["acc"])))
-    counters["drift_total"] = counters.get("drift_total", 0) + trace_drift
-    runs.append(dict(config="fuzz", records=nrand, validated_by_tlc=res.distinct, rejected=len(bad)))
-    log("C05 fuzz: %d records of the real Get validated by TLC, %d rejected" % (nrand, len(bad)))
+    crumbs = ctx.mkdir("crumbs")
+    fuzz_died = None
+    try:
+        run_driver(ctx, [drv, "-mode", "fuzz", "-n", str(nrand), "-trace", trace, "-work", ctx.mkdir("work-fuzz"), "-out", out,
+                         "-crumbs", crumbs], timeout=1200)
+        absorb(out, "fuzz")
+    except NoVerdict as e:
+        # the driver process died.  If the entries whose lookups were in flight kill a fresh process again, each on its own,
+        # that is the code under test ("no lookup panics": a lookup that takes the process down is worse), not the harness
+        fuzz_died = e
+        killers = []
+        for k, f in enumerate(sorted(os.listdir(crumbs))[:16]):
+            one = ctx.path("one-%d.json" % k)
+            try:
+                run_driver(ctx, [drv, "-mode", "one", "-cases", os.path.join(crumbs, f), "-work", ctx.mkdir("work-one-%d" % k), "-out", one],
+                           timeout=120)
+            except NoVerdict as e1:
+                with open(os.path.join(crumbs, f)) as fh:
+                    c = json.load(fh)
+                entry = bytes(c["e"]).decode("latin-1")
+                tail = str(e1)
+                why = "out of memory" if "out of memory" in tail else "makeslice" if "makeslice" in tail else "crash"
+                killers.append(dict(kind="lookup-kills-process", **{"class": "i%d %r" % (c["id"], entry)},
+                                    what="Get / GetBytes / GetFile on an index file with these bytes brings the whole process down (%s), "
+                                         "reproduced in a process of its own" % why,
+                                    input=dict(index_file=entry, bytes=c["e"], id="i%d" % c["id"]), detail=tail[-1500:]))
+        if not killers:
+            raise
+        violations.extend(killers)
+        counters["fuzz:lookup_kills_process"] = len(killers)
+    if fuzz_died is None:
+        res = tlc(ctx, SPECDIR, "Trace_IndexEntry.tla", "Trace_IndexEntry.cfg", files=[trace], workers=NCPU, timeout=2400,
+                  expect_violation=True)
+        ctx.tlc_states += res.distinct
+        ctx.tlc_transitions += max(res.generated - 1, 0)
+        if not res.ok:
+            raise NoVerdict("trace validation did not complete:\n%s" % res.violation)
+        if res.distinct != nrand:
+            raise NoVerdict("trace validation visited %d of %d records" % (res.distinct, nrand))
+        bad = bad_traces(res)
+        trace_drift = 0
+        if bad:
+            recs = open(trace).read().splitlines()
+            for idx, invs in sorted(bad.items()):
+                rec = json.loads(recs[idx - 1])
+                text = bytes(rec["e"]).decode("latin-1")
+                if "RecNoPanic" in invs:
+                    violations.append(dict(kind="panic", **{"class": "i%d %r" % (rec["id"], text)},
+                                           what="Get panicked on the index file %r (rejected by TLC: RecNoPanic)" % text,
+                                           input=dict(index_file=text, bytes=rec["e"], id="i%d" % rec["id"])))
+                else:
+                    trace_drift += 1
+                    drift.append(dict(kind="trace-" + ",".join(sorted(invs)), what="the real Get and the grammar of IndexEntry.tla differ on %r" % text,
+                                      input=dict(index_file=text, id="i%d" % rec["id"], real_accepts=rec["acc"])))
+        counters["drift_total"] = counters.get("drift_total", 0) + trace_drift
+        runs.append(dict(config="fuzz", records=nrand, validated_by_tlc=res.distinct, rejected=len(bad)))
+        log("C05 fuzz: %d records of the real Get validated by TLC, %d rejected" % (nrand, len(bad)))
 
     # panics are reported by the driver and by TLC: once is enough
     seen = set()
